@@ -132,6 +132,11 @@ func simplify(e ast.Expr) ast.Expr {
 	return e
 }
 
+// structural: the scan functions that give the dispatch tables their names; everything else that is
+// unexported (plain function or method) is a helper and is inlined
+var structural = map[string]bool{"scanPrimitiveBlock": true, "scanPrimitiveGroup": true, "scanDenseNodes": true,
+	"scanWays": true, "scanRelations": true}
+
 type inliner struct {
 	helpers map[string]*ast.FuncDecl
 	done    map[string]bool
@@ -175,6 +180,13 @@ func declaredNames(body ast.Node) map[string]bool {
 // instantiate: a copy of the body of fn (a FuncDecl's or FuncLit's type and body) with parameters replaced by
 // args, locals renamed apart, and `return e...` turned into `lhs... = e...` (dropped when there is no lhs)
 func (in *inliner) instantiate(ft *ast.FuncType, body *ast.BlockStmt, args []ast.Expr, lhs []ast.Expr) []ast.Stmt {
+	return in.instantiateR(ft, body, args, lhs, "", nil, false)
+}
+
+// instantiateR: recvName/recvExpr substitute the callee's receiver; keepReturns leaves `return` statements
+// alone (tail call: return helper(...))
+func (in *inliner) instantiateR(ft *ast.FuncType, body *ast.BlockStmt, args []ast.Expr, lhs []ast.Expr,
+	recvName string, recvExpr ast.Expr, keepReturns bool) []ast.Stmt {
 	in.counter++
 	suffix := fmt.Sprintf("_inl%d", in.counter)
 	b := cloneNode(body).(*ast.BlockStmt)
@@ -199,6 +211,9 @@ func (in *inliner) instantiate(ft *ast.FuncType, body *ast.BlockStmt, args []ast
 		}
 		return true
 	})
+	if recvName != "" && recvExpr != nil {
+		params[recvName] = recvExpr
+	}
 	locals := declaredNames(b)
 	for n := range params {
 		delete(locals, n)
@@ -250,6 +265,9 @@ func (in *inliner) instantiate(ft *ast.FuncType, body *ast.BlockStmt, args []ast
 	// returns
 	var fix func(list []ast.Stmt) []ast.Stmt
 	fixStmt := func(s ast.Stmt) ast.Stmt {
+		if keepReturns {
+			return s
+		}
 		if r, ok := s.(*ast.ReturnStmt); ok {
 			if len(lhs) > 0 && len(r.Results) == len(lhs) {
 				l := make([]ast.Expr, len(lhs))
@@ -284,16 +302,33 @@ func (in *inliner) instantiate(ft *ast.FuncType, body *ast.BlockStmt, args []ast
 
 // callee of a call: a helper of the file, or a function literal
 func (in *inliner) callee(c *ast.CallExpr) (*ast.FuncType, *ast.BlockStmt, bool) {
+	ft, body, _, _, ok := in.calleeR(c)
+	return ft, body, ok
+}
+
+func (in *inliner) calleeR(c *ast.CallExpr) (*ast.FuncType, *ast.BlockStmt, string, ast.Expr, bool) {
 	switch f := unparen(c.Fun).(type) {
 	case *ast.Ident:
-		if h, ok := in.helpers[f.Name]; ok && !in.busy[f.Name] {
+		if h, ok := in.helpers[f.Name]; ok && h.Recv == nil && !in.busy[f.Name] {
 			in.prepare(f.Name)
-			return h.Type, h.Body, true
+			return h.Type, h.Body, "", nil, true
+		}
+	case *ast.SelectorExpr:
+		// method helper called on a plain variable: dec.helper(...)
+		if _, ok := f.X.(*ast.Ident); ok {
+			if h, ok := in.helpers[f.Sel.Name]; ok && h.Recv != nil && !in.busy[f.Sel.Name] {
+				in.prepare(f.Sel.Name)
+				rn := ""
+				if len(h.Recv.List) == 1 && len(h.Recv.List[0].Names) == 1 {
+					rn = h.Recv.List[0].Names[0].Name
+				}
+				return h.Type, h.Body, rn, f.X, true
+			}
 		}
 	case *ast.FuncLit:
-		return f.Type, f.Body, true
+		return f.Type, f.Body, "", nil, true
 	}
-	return nil, nil, false
+	return nil, nil, "", nil, false
 }
 
 // single-expression helpers can be inlined inside expressions
@@ -312,19 +347,20 @@ func (in *inliner) inlineExprs(n ast.Node) {
 		if !ok {
 			return e
 		}
-		ft, body, ok := in.callee(c)
+		ft, body, rn, rx, ok := in.calleeR(c)
 		if !ok {
 			return e
 		}
 		if _, ok := singleReturn(body); !ok {
 			return e
 		}
-		st := in.instantiate(ft, body, c.Args, nil)
-		_ = st
-		// instantiate turned the return into an EmptyStmt (no lhs); redo with a marker lhs
 		marker := &ast.Ident{Name: "\x00ret"}
-		st = in.instantiate(ft, body, c.Args, []ast.Expr{marker})
+		st := in.instantiateR(ft, body, c.Args, []ast.Expr{marker}, rn, rx, false)
 		if as, ok := st[0].(*ast.AssignStmt); ok && len(as.Rhs) == 1 {
+			switch unparen(as.Rhs[0]).(type) {
+			case *ast.UnaryExpr, *ast.CompositeLit, *ast.CallExpr, *ast.Ident, *ast.SelectorExpr, *ast.BasicLit:
+				return unparen(as.Rhs[0])
+			}
 			return &ast.ParenExpr{X: as.Rhs[0]}
 		}
 		return e
@@ -349,9 +385,20 @@ func (in *inliner) inlineStmts(list []ast.Stmt, depth int) []ast.Stmt {
 			if c, ok := unparen(x.X).(*ast.CallExpr); ok {
 				call = c
 			}
+		case *ast.ReturnStmt:
+			// tail call: return helper(...)
+			if len(x.Results) == 1 && depth < 8 {
+				if c, ok := unparen(x.Results[0]).(*ast.CallExpr); ok {
+					if ft, body, rn, rx, ok := in.calleeR(c); ok {
+						st := in.instantiateR(ft, body, c.Args, nil, rn, rx, true)
+						out = append(out, in.inlineStmts(st, depth+1)...)
+						continue
+					}
+				}
+			}
 		}
-		if call != nil && depth < 6 {
-			if ft, body, ok := in.callee(call); ok {
+		if call != nil && depth < 8 {
+			if ft, body, rn, rx, ok := in.calleeR(call); ok {
 				nres := 0
 				if ft.Results != nil {
 					for _, r := range ft.Results.List {
@@ -363,7 +410,7 @@ func (in *inliner) inlineStmts(list []ast.Stmt, depth int) []ast.Stmt {
 					}
 				}
 				if len(lhs) == 0 || len(lhs) == nres {
-					st := in.instantiate(ft, body, call.Args, lhs)
+					st := in.instantiateR(ft, body, call.Args, lhs, rn, rx, false)
 					out = append(out, in.inlineStmts(st, depth+1)...)
 					continue
 				}
@@ -411,7 +458,7 @@ func (in *inliner) prepare(name string) {
 func inlineFile(file *ast.File) map[string]bool {
 	in := &inliner{helpers: map[string]*ast.FuncDecl{}, done: map[string]bool{}, busy: map[string]bool{}}
 	for _, d := range file.Decls {
-		if fd, ok := d.(*ast.FuncDecl); ok && fd.Recv == nil && fd.Body != nil && isHelperName(fd.Name.Name) {
+		if fd, ok := d.(*ast.FuncDecl); ok && fd.Body != nil && isHelperName(fd.Name.Name) && !structural[fd.Name.Name] {
 			in.helpers[fd.Name.Name] = fd
 		}
 	}
@@ -425,7 +472,7 @@ func inlineFile(file *ast.File) map[string]bool {
 	}
 	for _, d := range file.Decls {
 		if fd, ok := d.(*ast.FuncDecl); ok && fd.Body != nil {
-			if _, isHelper := in.helpers[fd.Name.Name]; isHelper && fd.Recv == nil {
+			if _, isHelper := in.helpers[fd.Name.Name]; isHelper {
 				continue
 			}
 			in.inlineExprs(fd.Body)
